@@ -3,7 +3,8 @@
 package tsdb
 
 // VerifGate, when set, is called at the gate points of the data family (verification harness only):
-// "writerows.gotdb" in WriteRows after the memory database to write into was obtained and before any row is written.
+// "writerows.gotdb" in WriteRows after the memory database to write into was obtained and before any row is written;
+// "flushchecker.sent" in requestFlushJob after the request went into the channel of the flush workers.
 var VerifGate func(point string)
 
 func verifGate(point string) {
